@@ -22,6 +22,10 @@
   * "drains delivery" is `TaskHandler.flush`: it waits at most 10 s per pending send and then gives up on it (known
     finding `C09/flush-gives-up-after-10s`); in the model a waited-for send is a completed send.
   * an instance that was shut down is not started again (`Deep._shutdown`); a new life needs a new `Deep`.
+  * whitelisted logging: the handler of the steps loop logs the failing step with `%s` (a bound method, i.e. the
+    plugin's repr); with logging ENABLED a BaseException raised by that repr is not swallowed by `logging` and leaves
+    `Deep.shutdown` (probe notes/probes/c14_shutdown_log_argument_baseexception.py) — outside the model, which treats
+    the logging calls as unable to raise.
 -/
 import DeepModel.Proofs.Lifecycle
 
